@@ -52,28 +52,19 @@ class CheckC01(core.Check):
         rnd = random.Random(self.seed * 7919 + 1)
         descs = []
         combos = [(d, c, h) for d in DHS for c in CIPHERS for h in HASHES]
+        names = list(all_names())
+        self.exhaustive = True  # the name space (556 handshake variants x 24 primitive combinations) is enumerated; inputs are sampled
         if self.tier == "quick":
-            k = rnd.randrange(24)
-            for p, ps in all_variants():
-                d, c, h = combos[k % 24]
-                k += 1
-                descs.append(("ss", make_name(p, ps, d, c, h), rnd.getrandbits(32)))
-            names = list(all_names())
-            for _ in range(200):
-                descs.append(("ss", rnd.choice(names), rnd.getrandbits(32)))
-            edge = [n for n in names if len(n) - prims.hashlen(n.rsplit("_", 1)[1]) in (-1, 0, 1)]
-            for n in rnd.sample(edge, min(40, len(edge))):
+            for n in names:
                 descs.append(("ss", n, rnd.getrandbits(32)))
-            for n in rnd.sample(names, 120):
+            for n in rnd.sample(names, 1500):
                 descs.append(("mp", n, rnd.getrandbits(32), rnd.choice("ir")))
-            self.exhaustive = False
         else:
-            for n in all_names():
-                for _ in range(3):
+            for n in names:
+                for _ in range(6):
                     descs.append(("ss", n, rnd.getrandbits(32)))
-                if rnd.random() < 0.25:
-                    descs.append(("mp", n, rnd.getrandbits(32), rnd.choice("ir")))
-            self.exhaustive = True
+                for role in "ir":
+                    descs.append(("mp", n, rnd.getrandbits(32), role))
         try:
             nvec = len(json.load(open(VEC_PATH))["vectors"])
             for i in range(nvec):
